@@ -585,3 +585,10 @@
 ; instantiation of relational clauses at call sites
 (declare-fun adm (cty.Value Int Real) Bool)
 (assert (forall ((v cty.Value) (ci Int) (cr Real)) (! (= (adm v ci cr) (num_admits v ci cr)) :pattern ((adm v ci cr)))))
+; byte/string accumulators: the text written so far (uninterpreted observation of a bytes.Buffer)
+(declare-fun buf.str (bytes.Buffer) String)
+; big.Float.String() = Text('g', 10): ten significant digits of the value - a function of the numeric
+; value (and the sign of a zero) only, not of the precision of the representation (assumed about math/big)
+(declare-fun num_text10 (Int Real Bool) String)
+; ghost: the collection an element iterator was created for (iterators are not under contract yet)
+(declare-fun it_coll (Any) cty.Value)
